@@ -7,6 +7,7 @@
 -/
 import Sbdf.Lemmas.ReadsTM
 import Sbdf.Props.C05
+import Sbdf.Props.C04
 import Sbdf.Gen.Tables
 namespace Sbdf.C09
 open Spec
@@ -185,6 +186,115 @@ theorem rle_row_count_mismatch (c : Cfg) (rows : Int) (runs : Bytes) (vals : Obj
     (hsz : elemSizeOrPtr vals.tid = .ok sz) (hlen : runs.length = vals.count) (h : (rleTotal runs : Int) ≠ rows) :
     getValues c (.rle rows runs vals) = .error (.st .invalidSize) := by
   simp [getValues, hsz, hlen, h]
+
+/-! ### corruption in the context of a whole file -/
+
+/-- The caller loop over well-formed slices followed by bytes on which `sbdf_ts_read` fails with
+    status `s`: every slice before the corruption is returned exactly as from the uncorrupted file,
+    and the call that meets the corruption fails with `s` (first-error propagation, whatever
+    follows). -/
+theorem slices_then_failure (c : Cfg) (sub : Option (List Bool)) (n : Nat) (slices : List (List CS))
+    (hn : ∀ x ∈ slices, x.length = n) (hf : ∀ x ∈ slices, TSFits c x) (bad : Bytes) (s : Status)
+    (hbad : FailsWith (readTS c n sub) bad s) (pre rest : Bytes) (fuel : Nat) (hfuel : slices.length < fuel) :
+    readSlices c n sub (pre ++ (slices.flatMap (Spec.ts c) ++ bad) ++ rest).toArray fuel pre.length =
+      (slices.map (fun x => ⟨maskFrom sub 0 x⟩), .failed (.st s)) := by
+  induction slices generalizing pre fuel with
+  | nil =>
+    cases fuel with
+    | zero => simp at hfuel
+    | succ fuel =>
+      simp only [List.flatMap_nil, List.nil_append, readSlices, List.map_nil]
+      rw [hbad pre rest]
+  | cons x xs ih =>
+    cases fuel with
+    | zero => simp at hfuel
+    | succ fuel =>
+      simp only [readSlices, List.flatMap_cons, List.map_cons]
+      have hs := reads_ts c sub x (hf x (by simp))
+      rw [hn x (by simp)] at hs
+      have e1 : pre ++ (Spec.ts c x ++ xs.flatMap (Spec.ts c) ++ bad) ++ rest =
+          pre ++ Spec.ts c x ++ (xs.flatMap (Spec.ts c) ++ bad ++ rest) := by simp
+      rw [e1, hs pre _]
+      simp only
+      have e2 : pre ++ Spec.ts c x ++ (xs.flatMap (Spec.ts c) ++ bad ++ rest) =
+          (pre ++ Spec.ts c x) ++ (xs.flatMap (Spec.ts c) ++ bad) ++ rest := by simp
+      have := ih (fun y hy => hn y (by simp [hy])) (fun y hy => hf y (by simp [hy])) (pre ++ Spec.ts c x) fuel
+        (by simp at hfuel; omega)
+      rw [e2]
+      simp only [List.length_append] at this ⊢
+      rw [this]
+
+/-- instances: after any number of good slices, a wrong section id / a negative or mismatching
+    column count in the next slice header is reported by that call with the matching status -/
+theorem corrupt_slice_header (c : Cfg) (sub : Option (List Bool)) (n : Nat) (slices : List (List CS))
+    (hn : ∀ x ∈ slices, x.length = n) (hf : ∀ x ∈ slices, TSFits c x) (pre rest : Bytes) (fuel : Nat)
+    (hfuel : slices.length < fuel) :
+    (∀ id, id < 256 → id ≠ 5 → id ≠ 3 →
+      (readSlices c n sub (pre ++ (slices.flatMap (Spec.ts c) ++ sec id) ++ rest).toArray fuel pre.length).2 =
+        .failed (.st .unexpectedSection)) ∧
+    (∀ cc, isInt32 cc → cc < 0 →
+      (readSlices c n sub (pre ++ (slices.flatMap (Spec.ts c) ++ (sec 3 ++ le c cc)) ++ rest).toArray fuel pre.length).2 =
+        .failed (.st .invalidSize)) ∧
+    (∀ cc, isInt32 cc → 0 ≤ cc → cc ≠ n →
+      (readSlices c n sub (pre ++ (slices.flatMap (Spec.ts c) ++ (sec 3 ++ le c cc)) ++ rest).toArray fuel pre.length).2 =
+        .failed (.st .colCountMismatch)) := by
+  refine ⟨?_, ?_, ?_⟩
+  · intro id h1 h2 h3
+    rw [slices_then_failure c sub n slices hn hf _ _ ((slice_position c n sub id h1).2 h2 h3) pre rest fuel hfuel]
+  · intro cc h1 h2
+    rw [slices_then_failure c sub n slices hn hf _ _ ((slice_column_count c n sub cc h1).1 h2) pre rest fuel hfuel]
+  · intro cc h1 h2 h3
+    rw [slices_then_failure c sub n slices hn hf _ _ ((slice_column_count c n sub cc h1).2 h2 h3) pre rest fuel hfuel]
+
+/-- corruption inside a column slice is reported by `sbdf_cs_read` with the status of the value
+    array reader -/
+theorem cs_fails_with_va (c : Cfg) (bad : Bytes) (s : Status) (h : FailsWith (readVA c) bad s) :
+    FailsWith (readCS c) (sec 4 ++ bad) s := by
+  unfold readCS; simp only [P.bind_def]
+  exact FailsWith.after (reads_secExpect 4 (by omega)) (FailsWith.first h)
+
+/-- ... and by `sbdf_ts_read` (full read), after any number of intact columns of the slice -/
+theorem cols_then_failure (c : Cfg) (good : List CS) (hg : ∀ x ∈ good, x.Fits c) (k : Nat) (bad : Bytes) (s : Status)
+    (h : FailsWith (readCS c) bad s) (i : Nat) :
+    FailsWith (readCols c (good.length + (k + 1)) none i) (good.flatMap (Spec.cs c) ++ bad) s := by
+  induction good generalizing i with
+  | nil =>
+    simp only [List.length_nil, Nat.zero_add, List.flatMap_nil, List.nil_append, readCols, P.bind_def, wantCol, if_true]
+    exact FailsWith.first (FailsWith.first h)
+  | cons x xs ih =>
+    have e : (x :: xs).length + (k + 1) = (xs.length + (k + 1)) + 1 := by simp; omega
+    rw [e]
+    simp only [readCols, P.bind_def, wantCol, if_true, List.flatMap_cons, List.append_assoc]
+    have hx := Reads.bind (reads_cs c x (hg x (by simp))) (f := fun cs => P.pure (some cs)) (Reads.pure _)
+    simp only [List.append_nil] at hx
+    refine FailsWith.after hx ?_
+    exact FailsWith.first (ih (fun y hy => hg y (by simp [hy])) (i + 1))
+
+theorem ts_fails_with_cs (c : Cfg) (good : List CS) (hg : ∀ x ∈ good, x.Fits c) (k : Nat) (bad : Bytes) (s : Status)
+    (h : FailsWith (readCS c) bad s)
+    (hcap : ((good.length + (k + 1) : Nat) : Int) * 8 ≤ c.cap) (hmax : ((good.length + (k + 1) : Nat) : Int) ≤ INT_MAX) :
+    FailsWith (readTS c (good.length + (k + 1)) none)
+      (sec 3 ++ le c ((good.length + (k + 1) : Nat) : Int) ++ (good.flatMap (Spec.cs c) ++ bad)) s := by
+  unfold readTS; simp only [P.bind_def]
+  rw [List.append_assoc]
+  refine FailsWith.after (reads_secRead 3 (by omega)) ?_
+  simp only [show ¬ (3 = 5) by omega, if_false, ne_eq, not_true_eq_false]
+  have hi : isInt32 ((good.length + (k + 1) : Nat) : Int) := by unfold INT_MAX at hmax; unfold isInt32; omega
+  refine FailsWith.after (reads_int32 c _ hi) ?_
+  have h0 : ¬ (((good.length + (k + 1) : Nat) : Int) < 0) := by omega
+  simp only [h0, if_false, not_true_eq_false]
+  have ha := Reads.allocOk c (((good.length + (k + 1) : Nat) : Int) * 8) (by omega) hcap
+  have := FailsWith.after ha (f := fun _ => P.bind (readCols c (good.length + (k + 1)) none 0) (fun cols => P.pure (some (⟨cols⟩ : TS))))
+    (FailsWith.first (cols_then_failure c good hg k bad s h 0))
+  simpa using this
+
+/-- e.g. an unknown encoding id in the values of any column of a slice -/
+theorem unknown_encoding_in_slice (c : Cfg) (good : List CS) (hg : ∀ x ∈ good, x.Fits c) (k : Nat) (e vt : UInt8)
+    (h1 : e ≠ 1) (h2 : e ≠ 2) (h3 : e ≠ 3)
+    (hcap : ((good.length + (k + 1) : Nat) : Int) * 8 ≤ c.cap) (hmax : ((good.length + (k + 1) : Nat) : Int) ≤ INT_MAX) :
+    FailsWith (readTS c (good.length + (k + 1)) none)
+      (sec 3 ++ le c ((good.length + (k + 1) : Nat) : Int) ++ (good.flatMap (Spec.cs c) ++ (sec 4 ++ [e, vt]))) .unknownEncoding :=
+  ts_fails_with_cs c good hg k _ _ (cs_fails_with_va c _ _ (unknown_encoding_id c e vt h1 h2 h3).1) hcap hmax
 
 /-! ### every status the library can return has its own textual description -/
 
